@@ -307,6 +307,13 @@ where
     }
 }
 
+#[cfg(bma400_verif)]
+impl IntPinConfig {
+    pub(crate) fn verif_visit(&mut self, f: &mut dyn FnMut(u8, u8) -> Option<u8>) {
+        verif_visit_fields!(self, f, int1_map: Int1Map, int2_map: Int2Map, int12_map: Int12Map, int12_io_ctrl: Int12IOCtrl);
+    }
+}
+
 #[cfg(test)]
 mod tests {
     use super::*;
